@@ -285,6 +285,8 @@ func (r *rwRT) ruleIterType() {
 		st := newState()
 		_, n := r.heapNode(st, "IndexExpr", map[string]AV{"X": exprLeaf(r, "n.X"), "Index": exprLeaf(r, "n.Index")})
 		in := r.interp(rwConfig{root: fn})
+		// frame condition: the library calls made here (cursor, loader, go/types) cannot reach the rewriter's own fields
+		in.HavocKeep = func(key string) bool { return strings.HasPrefix(key, "r.") || strings.HasPrefix(key, "map:r.") }
 		in.Fields["r.seqImportedName"] = mkString("seq")
 		var cur AV = n
 		in.OnCall = wrapOnCall(in.OnCall, func(cc *CallCtx) []Answer {
@@ -338,6 +340,33 @@ func (r *rwRT) ruleIterType() {
 			}
 			c.check(err == nil, "RW.TMPL.ITERTYPE", fmt.Sprintf("X[T] with X iterator type = %v", isIter), pos,
 				map[bool]string{true: "replaced by seq.Iterator[<same T>] under the file's import name", false: "left untouched"}[isIter], fmt.Sprint(err))
+			if isIter && err == nil {
+				// the same node can be reached again at another position (the element-type expression of a generator
+				// is shared by every seq call generated for it): the decision depends on the node alone, every
+				// occurrence is replaced (a "seen" cache leaves Iter[Iter[int]] half rewritten)
+				mark := len(o.St.Events)
+				again := in.Run(o.St.clone(), fn, []AV{Sym{Name: "r", NN: true}, Sym{Name: "cursor", NN: true}, Sym{Name: "pkg", NN: true}}, nil)
+				r.account(in)
+				replaced := true
+				for _, o2 := range again {
+					if o2.Panicked {
+						continue
+					}
+					isIterPath := false
+					for _, l := range o2.St.Labels[len(o.St.Labels):] {
+						if strings.HasPrefix(l, "isIterator(") && strings.HasSuffix(l, "=true") {
+							isIterPath = true
+						}
+					}
+					if len(o2.St.Labels) == len(o.St.Labels) {
+						isIterPath = true // the predicate was not even consulted
+					}
+					if isIterPath && len(cursorEdits(o2.St, mark)) == 0 {
+						replaced = false
+					}
+				}
+				c.check(replaced, "RW.TMPL.ITERTYPE", "the same X[T] node visited a second time", pos, "replaced again: the replacement depends on the node alone", "a node that was replaced once is skipped when it is visited again (the iterator type is not replaced consistently where one type expression is shared by several positions)")
+			}
 		}
 		_ = want
 		if !found {
